@@ -312,6 +312,20 @@ func buildC02Hist(t0 []string, depth int) *c02Hist {
 
 var c02Srv *drv.Server
 
+// c02SharedServer: one server per worker process, shared by every space that needs one. The verif accessor reads the
+// cache of the most recently created server and the server keeps state in package-level variables, so a process must
+// never hold two live servers.
+func c02SharedServer() {
+	if c02Srv == nil {
+		root := drv.NewWorkspace(map[string]string{"a.lua": c02DiskText})
+		s, err := drv.Start(root, drv.Options{})
+		if err != nil {
+			panic(err)
+		}
+		c02Srv = s
+	}
+}
+
 // the saved file declares a global that no buffer of the alphabet declares: if the outline of the open document
 // lists it, the server analyses the disk file instead of the client's text
 const c02DiskText = "gondisk = 1\n"
@@ -364,14 +378,7 @@ func c02HandlerSpace(name string, h *c02Hist, level int) *core.Space {
 	return &core.Space{
 		Name: name, N: cum[len(states)], Chunk: 400, Describe: desc, RecycleEvery: 50,
 		Setup: func() {
-			if c02Srv == nil {
-				root := drv.NewWorkspace(map[string]string{"a.lua": c02DiskText})
-				s, err := drv.Start(root, drv.Options{})
-				if err != nil {
-					panic(err)
-				}
-				c02Srv = s
-			}
+			c02SharedServer()
 		},
 		Run: func(i int64, r *core.Result) {
 			s, e := at(i)
